@@ -32,7 +32,19 @@ func (fr *frame) evalCall(p *Path, e *ast.CallExpr) []PV {
 		}
 		if v, ok := fr.info.Uses[id].(*types.Var); ok {
 			// call of a function value (closure)
-			return fr.callClosure(p, e, v)
+			cv, _ := p.Vars[v].(*ClosureVal)
+			return fr.callClosure(p, e, cv, v.Name())
+		}
+	}
+	if ix, ok := e.Fun.(*ast.IndexExpr); ok {
+		// call of an element of a concrete list of function values: os[i](x)
+		if _, isSig := fr.info.Types[ix].Type.Underlying().(*types.Signature); isSig {
+			var out []PV
+			for _, fv := range fr.eval(p, ix) {
+				cv, _ := fv.V.(*ClosureVal)
+				out = append(out, fr.callClosure(fv.P, e, cv, "element")...)
+			}
+			return out
 		}
 	}
 	// resolve callee
@@ -198,11 +210,10 @@ func (fr *frame) evalBuiltin(p *Path, e *ast.CallExpr, name string) []PV {
 	return one(p, OpaqueVal{name})
 }
 
-func (fr *frame) callClosure(p *Path, e *ast.CallExpr, v *types.Var) []PV {
+func (fr *frame) callClosure(p *Path, e *ast.CallExpr, cv *ClosureVal, what string) []PV {
 	c := p.C
-	cv, ok := p.Vars[v].(*ClosureVal)
-	if !ok {
-		c.untranslatable(e.Pos(), "call of function value "+v.Name())
+	if cv == nil {
+		c.untranslatable(e.Pos(), "call of function value "+what)
 		return one(p, OpaqueVal{"fnval"})
 	}
 	var out []PV
@@ -1065,22 +1076,205 @@ func (fr *frame) sprintf(p *Path, e *ast.CallExpr, format string, args []Value) 
 // ---------------------------------------------------------------------------
 // loops over slices
 
-func (fr *frame) rangeSlice(p *Path, s *ast.RangeStmt, sv *SliceVal) []*Path {
+// loopShape: the loop forms that are treated as "for idx, val := range <slice>": a range statement, or the counting loop
+// "for i := A; i < len(S); i++ { ... }" (i and S not assigned in the body), which is the range over S[A:] with i = idx + A.
+type loopShape struct {
+	Node   ast.Stmt
+	Body   *ast.BlockStmt
+	Key    *types.Var
+	Val    *types.Var
+	KeyOff int64
+}
+
+func (s *loopShape) Pos() token.Pos { return s.Node.Pos() }
+
+func (fr *frame) rangeShape(s *ast.RangeStmt) *loopShape {
+	sh := &loopShape{Node: s, Body: s.Body}
+	if s.Key != nil {
+		if id, ok := s.Key.(*ast.Ident); ok && id.Name != "_" {
+			sh.Key, _ = fr.info.Defs[id].(*types.Var)
+		}
+	}
+	if s.Value != nil {
+		if id, ok := s.Value.(*ast.Ident); ok && id.Name != "_" {
+			sh.Val, _ = fr.info.Defs[id].(*types.Var)
+		}
+	}
+	return sh
+}
+
+// forAsRange recognises "for i := A; i < len(S); i++ BODY" with constant A >= 0, S an identifier, and neither i nor S
+// assigned (or address-taken) in BODY.
+func (fr *frame) forAsRange(s *ast.ForStmt) (*loopShape, ast.Expr, bool) {
+	init, ok := s.Init.(*ast.AssignStmt)
+	if !ok || init.Tok != token.DEFINE || len(init.Lhs) != 1 || len(init.Rhs) != 1 {
+		return nil, nil, false
+	}
+	iid, ok := init.Lhs[0].(*ast.Ident)
+	if !ok {
+		return nil, nil, false
+	}
+	iobj, _ := fr.info.Defs[iid].(*types.Var)
+	tv, ok := fr.info.Types[init.Rhs[0]]
+	if iobj == nil || !ok || tv.Value == nil || tv.Value.Kind() != constant.Int {
+		return nil, nil, false
+	}
+	a, exact := constant.Int64Val(tv.Value)
+	if !exact || a < 0 {
+		return nil, nil, false
+	}
+	cond, ok := s.Cond.(*ast.BinaryExpr)
+	if !ok || cond.Op != token.LSS {
+		return nil, nil, false
+	}
+	cx, ok := cond.X.(*ast.Ident)
+	if !ok || fr.info.Uses[cx] != iobj {
+		return nil, nil, false
+	}
+	call, ok := cond.Y.(*ast.CallExpr)
+	if !ok || len(call.Args) != 1 {
+		return nil, nil, false
+	}
+	if fid, ok := call.Fun.(*ast.Ident); !ok || fid.Name != "len" {
+		return nil, nil, false
+	} else if _, isB := fr.info.Uses[fid].(*types.Builtin); !isB {
+		return nil, nil, false
+	}
+	sid, ok := call.Args[0].(*ast.Ident)
+	if !ok {
+		return nil, nil, false
+	}
+	sobj, _ := fr.info.Uses[sid].(*types.Var)
+	if sobj == nil {
+		return nil, nil, false
+	}
+	switch post := s.Post.(type) {
+	case *ast.IncDecStmt:
+		pid, ok := post.X.(*ast.Ident)
+		if !ok || post.Tok != token.INC || fr.info.Uses[pid] != iobj {
+			return nil, nil, false
+		}
+	case *ast.AssignStmt:
+		if post.Tok != token.ADD_ASSIGN || len(post.Lhs) != 1 || len(post.Rhs) != 1 {
+			return nil, nil, false
+		}
+		pid, ok := post.Lhs[0].(*ast.Ident)
+		ptv := fr.info.Types[post.Rhs[0]]
+		if !ok || fr.info.Uses[pid] != iobj || ptv.Value == nil || ptv.Value.Kind() != constant.Int {
+			return nil, nil, false
+		}
+		if one, exact := constant.Int64Val(ptv.Value); !exact || one != 1 {
+			return nil, nil, false
+		}
+	default:
+		return nil, nil, false
+	}
+	bad := false
+	ast.Inspect(s.Body, func(n ast.Node) bool {
+		switch x := n.(type) {
+		case *ast.AssignStmt:
+			for _, l := range x.Lhs {
+				if id, ok := l.(*ast.Ident); ok && (fr.info.Uses[id] == iobj || fr.info.Uses[id] == sobj) {
+					bad = true
+				}
+				if ix, ok := l.(*ast.IndexExpr); ok {
+					if id, ok := ix.X.(*ast.Ident); ok && fr.info.Uses[id] == sobj {
+						bad = true
+					}
+				}
+			}
+		case *ast.IncDecStmt:
+			if id, ok := x.X.(*ast.Ident); ok && (fr.info.Uses[id] == iobj || fr.info.Uses[id] == sobj) {
+				bad = true
+			}
+		case *ast.UnaryExpr:
+			if x.Op == token.AND {
+				if id, ok := x.X.(*ast.Ident); ok && (fr.info.Uses[id] == iobj || fr.info.Uses[id] == sobj) {
+					bad = true
+				}
+			}
+		case *ast.BranchStmt, *ast.FuncLit, *ast.GoStmt, *ast.DeferStmt:
+			bad = true
+		}
+		return true
+	})
+	if bad {
+		return nil, nil, false
+	}
+	return &loopShape{Node: s, Body: s.Body, Key: iobj, KeyOff: a}, sid, true
+}
+
+func (fr *frame) execFor(p *Path, s *ast.ForStmt) []*Path {
+	c := p.C
+	sh, sexpr, ok := fr.forAsRange(s)
+	if !ok {
+		c.untranslatable(s.Pos(), "statement *ast.ForStmt (only 'for i := A; i < len(S); i++' over an unmodified slice is in the subset)")
+		return []*Path{p}
+	}
+	var out []*Path
+	for _, xv := range fr.eval(p, sexpr) {
+		q := xv.P
+		switch x := xv.V.(type) {
+		case *SliceVal:
+			lo := mkInt(sh.KeyOff)
+			if x.Known {
+				if int(sh.KeyOff) >= len(x.Elems) {
+					out = append(out, q)
+					continue
+				}
+				out = append(out, fr.rangeSlice(q, sh, &SliceVal{Known: true, Elems: x.Elems[sh.KeyOff:], Len: mkInt(int64(len(x.Elems)) - sh.KeyOff)})...)
+				continue
+			}
+			if sh.KeyOff == 0 {
+				out = append(out, fr.rangeSlice(q, sh, x)...)
+				continue
+			}
+			// fewer than A elements: the loop does not run
+			skip := q.clone()
+			skip.assume(tIntCmp("<", x.Len, lo))
+			if !skip.Dead {
+				out = append(out, skip)
+			}
+			q.assume(tIntCmp(">=", x.Len, lo))
+			if !q.Dead {
+				out = append(out, fr.rangeSlice(q, sh, &SliceVal{Arr: x.Arr, Off: tIntBin("+", x.Off, lo), Len: tIntBin("-", x.Len, lo)})...)
+			}
+		case *VariadicVal:
+			if x.Symbolic {
+				c.untranslatable(s.Pos(), "loop over symbolic variadic parameter")
+				out = append(out, q)
+				continue
+			}
+			ps := []*Path{q}
+			for i := int(sh.KeyOff); i < len(x.Elems); i++ {
+				var next []*Path
+				for _, r := range ps {
+					r.Vars[sh.Key] = mkInt(int64(i))
+					next = append(next, fr.execStmt(r, s.Body)...)
+				}
+				ps = next
+			}
+			out = append(out, ps...)
+		default:
+			c.untranslatable(s.Pos(), fmt.Sprintf("counting loop over %T", xv.V))
+			out = append(out, q)
+		}
+	}
+	return out
+}
+
+func (fr *frame) rangeSlice(p *Path, s *loopShape, sv *SliceVal) []*Path {
 	c := p.C
 	bindVal := func(q *Path, idx Term, val Term) {
 		if s.Key != nil {
-			if id, ok := s.Key.(*ast.Ident); ok && id.Name != "_" {
-				if obj, ok := fr.info.Defs[id].(*types.Var); ok {
-					q.Vars[obj] = idx
-				}
+			if s.KeyOff != 0 {
+				q.Vars[s.Key] = c.norm(tIntBin("+", idx, mkInt(s.KeyOff)))
+			} else {
+				q.Vars[s.Key] = idx
 			}
 		}
-		if s.Value != nil {
-			if id, ok := s.Value.(*ast.Ident); ok && id.Name != "_" {
-				if obj, ok := fr.info.Defs[id].(*types.Var); ok {
-					q.Vars[obj] = val
-				}
-			}
+		if s.Val != nil {
+			q.Vars[s.Val] = val
 		}
 	}
 	if sv.Known { // finite known list: unroll exactly
@@ -1099,7 +1293,7 @@ func (fr *frame) rangeSlice(p *Path, s *ast.RangeStmt, sv *SliceVal) []*Path {
 		c.untranslatable(s.Pos(), "loop over symbolic slice outside a function under contract")
 		return []*Path{p}
 	}
-	ord := loopOrdinal(fr.fi.Decl, s)
+	ord := loopOrdinal(fr.fi.Decl, s.Node)
 	ls := fr.fi.Contract.Loops[ord]
 	if ls == nil {
 		c.untranslatable(s.Pos(), fmt.Sprintf("loop %d has no invariant", ord))
